@@ -80,7 +80,11 @@ func c07URLs(assets []app.VerifAsset, r *Rng, per int) []string {
 				media := strings.NewReplacer("$Number$", id, "$Time$", id).Replace(rp.MediaURI)
 				urls = append(urls, "/livesim2/"+a.AssetPath+"/"+media+q, "/livesim2/"+a.AssetPath+"/"+rp.InitURI+q)
 				if rp.ContentType == "video" || rp.ContentType == "audio" {
-					urls = append(urls, "/livesim2/eccp_cbcs/"+a.AssetPath+"/"+media+q, "/livesim2/eccp_cbcs/"+a.AssetPath+"/"+rp.InitURI+q)
+					urls = append(urls, "/livesim2/eccp_cbcs/"+a.AssetPath+"/"+media+q, "/livesim2/eccp_cbcs/"+a.AssetPath+"/"+rp.InitURI+q,
+						"/livesim2/eccp_cenc/"+a.AssetPath+"/"+media+q, "/livesim2/eccp_cenc/"+a.AssetPath+"/"+rp.InitURI+q)
+					if a.SegmentDurMS > 1000 {
+						urls = append(urls, "/livesim2/eccp_cenc/ato_1/chunkdur_0.5/"+a.AssetPath+"/"+media+q)
+					}
 					if a.SegmentDurMS > 1000 {
 						urls = append(urls, "/livesim2/ato_1/chunkdur_0.5/"+a.AssetPath+"/"+media+q)
 					}
